@@ -6,6 +6,7 @@ mod sexp;
 mod semver;
 mod ranges;
 mod terms;
+mod offline;
 
 use std::io::{BufRead, Write};
 
@@ -58,6 +59,7 @@ fn main() {
                 "semver" => semver::eval(&sx),
                 "ranges" | "rangeord" | "rangeq" => ranges::eval(&sx),
                 "terms" | "bitset" => terms::eval(&sx),
+                "offline" => offline::eval(&sx),
                 _ => panic!("unknown domain"),
             };
             out.emit(case, &obs);
@@ -71,6 +73,7 @@ fn main() {
             "semver" => semver::generate(&mut out, &mut rng, thorough),
             "ranges" | "rangeord" | "rangeq" => ranges::generate(&mut out, &mut rng, thorough, domain),
             "terms" | "bitset" => terms::generate(&mut out, &mut rng, thorough, domain),
+            "offline" => offline::generate(&mut out, &mut rng, thorough),
             _ => panic!("unknown domain"),
         }
     }
